@@ -45,9 +45,10 @@ KEY_RULES = [
 
 
 # The SIGHUP path of the broker (Metrics.LoadGeoipDatabases while polls are served): Metrics.geoipdb in the tracked list and a
-# reload goroutine in the HTTP soak.  On while /repo has the lock in LoadGeoipDatabases (proposed-fixes/C20-geoip-reload-lock.diff);
-# with it off the race `race-Metrics.geoipdb` of an unfixed tree is not looked for.
-GEOIP_RELOAD = os.environ.get("VERIF_C20_GEOIP_RELOAD", "0") == "1"
+# reload goroutine in the HTTP soak.  On by default since /repo 8c17ea8 takes the metrics lock in LoadGeoipDatabases
+# (proposed-fixes/C20-geoip-reload-lock.diff); a tree without that lock gives `race-Metrics.geoipdb` (table row + race report).
+# VERIF_C20_GEOIP_RELOAD=0 switches both off.
+GEOIP_RELOAD = os.environ.get("VERIF_C20_GEOIP_RELOAD", "1") == "1"
 
 TRACKED = []     # "Type.field" names of the table, filled by table_leg (longest first)
 LOCALS = []      # (function, variable) of captured locals the extractor could not decide, filled by table_leg
